@@ -154,6 +154,7 @@ Definition dispatch (x : sx) : sx :=
                 let l := sset_states st in
                 SL [sx_w "states"; SZ (zlen l);
                     SL [sx_w "notok"; SZ (count_if (fun s => negb (state_ok gen_flags cf s)) l)];
+                    SL [sx_w "predbad"; SZ (count_if (fun s => negb (conf_pred gen_flags cf s)) l)];
                     SL [sx_w "notokstrict"; SZ (count_if (fun s => negb (state_ok_strict gen_flags cf s)) l)];
                     SL [sx_w "quiescent"; SZ (count_if quiescent l)];
                     SL [sx_w "kstates"; SZ (count_if (fun s => negb (g_k s =? 0)) l)];
@@ -171,7 +172,10 @@ Definition dispatch (x : sx) : sx :=
         end
       else sx_err "op"
   | SL [SS t; SS n] =>
-      if is_tag "witness" t then
+      if is_tag "universe" t then
+        let pu := fun U => SL (map (fun cf => SL [p_cfg cf; sx_bool (racy cf)]) U) in
+        if is_tag "u21" n then pu U21 else if is_tag "u22" n then pu U22 else if is_tag "u31" n then pu U31 else sx_err "universe"
+      else if is_tag "witness" t then
         if is_tag "k1torn" n then SL [sx_w "w"; p_cfg cfg_get_upd; SL (map p_nat sch_k1_torn)]
         else if is_tag "k1acct" n then SL [sx_w "w"; p_cfg cfg_get_upd; SL (map p_nat sch_k1_acct)]
         else if is_tag "k2" n then SL [sx_w "w"; p_cfg cfg_get_unl; SL (map p_nat sch_k2)]
